@@ -312,14 +312,34 @@ def g6_g7(repo, res):
                         "the resolved show()/default values stay on the object", t1["bad"][0][2].lineno))
 
 
+def g8(repo, res):
+    """invalid style names are rejected by *exact* membership of the level-0 key in the set of valid keys (set difference / `in`),
+    not by prefix/substring matching - otherwise misspelt names that merely start like a valid one are accepted silently"""
+    du = repo.mod("magpylib._src.defaults.defaults_utility")
+    fn = du.funcs.get("validate_style_keys")
+    res.require(fn is not None, "anchor vanished: validate_style_keys")
+    fuzzy = [c for c in ast.walk(fn) if isinstance(c, ast.Call) and isinstance(c.func, ast.Attribute) and c.func.attr in
+             ("startswith", "endswith", "find", "index", "match", "search", "fullmatch", "count")]
+    exact = [c for c in ast.walk(fn) if (isinstance(c, ast.Call) and isinstance(c.func, ast.Attribute) and c.func.attr in ("difference", "issubset", "issuperset", "__sub__"))
+             or (isinstance(c, ast.Compare) and isinstance(c.ops[0], (ast.In, ast.NotIn)))
+             or (isinstance(c, ast.BinOp) and isinstance(c.op, ast.Sub) and any(isinstance(x, ast.Call) and getattr(x.func, "id", "") == "set" for x in ast.walk(c)))]
+    raises = any(isinstance(x, ast.Raise) for x in ast.walk(fn))
+    ok = raises and bool(exact) and not fuzzy
+    res.ob("G8:style names validated by exact membership", ok, {"rule": "G8", "exact_tests": [norm(x) for x in exact][:4], "fuzzy_tests": [norm(x) for x in fuzzy]})
+    if not ok:
+        res.add(Finding("G8", du.rel, "validate_style_keys", fuzzy[0] if fuzzy else fn, "style names are validated by prefix/substring matching (or not at all): "
+                        "invalid names that begin like a valid key are accepted and then silently dropped", (fuzzy[0] if fuzzy else fn).lineno))
+
+
 def run(repo, res, tier):
-    res.rules = ["G1 reset/DEFAULTS vs property tree", "G2 alias-free properties", "G3 leaf setters validate", "G4 no caller dict mutated/captured", "G5 precedence dataflow in get_style", "G6 no memoisation on the style path", "G7 temporary style removed on all exits"]
+    res.rules = ["G1 reset/DEFAULTS vs property tree", "G2 alias-free properties", "G3 leaf setters validate", "G4 no caller dict mutated/captured", "G5 precedence dataflow in get_style", "G6 no memoisation on the style path", "G7 temporary style removed on all exits", "G8 exact validation of style names"]
     g1(repo, res)
     g2_g3(repo, res)
     import origin_rules
     origin_rules.c20_g4(repo, res)
     g5(repo, res)
     g6_g7(repo, res)
+    g8(repo, res)
     res.assumptions += ["property tree links are the validate_property_class(val, name, Class, self) calls in the setters",
                         "NumPy/stdlib copy-view table of origdom.py (dict.copy / dict display / {**d} are copies one level deep)"]
     return {}
